@@ -9,7 +9,7 @@ ok=0; bad=0
 for d in seeded/*/; do
   name=$(basename "$d")
   prop=$(python3 -c "import json;print(json.load(open('$d/meta.json'))['property'])")
-  git -C "$REPO" apply "$d/patch.diff" || { echo "SKIP $name (patch does not apply)"; continue; }
+  git -C "$REPO" apply "$(pwd)/$d/patch.diff" || { echo "SKIP $name (patch does not apply)"; continue; }
   out=$(./check "$prop" --tier quick 2>&1); rc=$?
   git -C "$REPO" checkout -- .
   n=$(echo "$out" | grep -c "^VIOLATION property=$prop")
